@@ -207,10 +207,13 @@ def run(chk, prog):
                         chk.check(sp.expand(dfc.subs(F.e1, 0)) == 0, "R3", site,
                                   "dt=%d FPType=%s: column %+d rows from the stencil switch: defect %s is proportional to the damping decrement"
                                   % (dt, tname, r, dfc), "FP:%d:%s:switch:r%d:defect-not-prop-e1:%s" % (dt, tname, r, dfc))
-                        if t in (0, 2):
-                            chk.check(dfc == 0, "R3", site,
-                                      "dt=%d FPType=%s: without damping the switch rows are exact too" % (dt, tname),
-                                      "FP:%d:%s:switch:r%d:defect-without-damping:%s" % (dt, tname, r, dfc))
+                        # ... with a factor that is a number of order one: in units of rows (P = rho*delta next to zero energy) the defect per
+                        # unit decrement must not depend on the cell size (a leak ~ e1/delta^2 grows with the resolution of the grid)
+                        rho_ = sp.Symbol("rho_rows", real=True)
+                        per_dec = sp.simplify(sp.expand(dfc).subs(F.P, rho_ * F.d) / F.e1) if dfc != 0 else sp.Integer(0)
+                        chk.check(F.d not in per_dec.free_symbols, "R3", site,
+                                  "dt=%d FPType=%s: column %+d rows from the stencil switch: defect per unit decrement %s is independent of the cell size"
+                                  % (dt, tname, r, per_dec), "FP:%d:%s:switch:r%d:defect-scales-with-grid:%s" % (dt, tname, r, per_dec))
     chk.floor("R3-cells", ncell, 11)
     # e1 reaches the stencil as the constructor parameter; _ip == dt
     base = [i for i in st.fn["inits"] if i.get("ikind") == "base"]
